@@ -20,29 +20,31 @@ Definition headroom (P : params) (s : gstate) (B : Z) : Prop :=
 
 (* (b), complete form *)
 Definition C06_catch_up (R : nat) : Prop :=
-  forall P pay, params_ok P -> env_ok P pay -> forall s, preach P s -> headroom P s (Z.of_nat R + 2) ->
-  forall h k, honestb P h = true -> honestb P k = true -> up s h -> up (sync_rounds P pay R s) k ->
-  hview s h <= hview (sync_rounds P pay R s) k.
+  forall P pay fetch, params_ok P -> env_ok P pay -> forall s, preach P s -> headroom P s (Z.of_nat R + 2) ->
+  forall h k, honestb P h = true -> honestb P k = true -> up s h -> up (sync_rounds P pay fetch R s) k ->
+  hview s h <= hview (sync_rounds P pay fetch R s) k.
 
 (* what separates the proved three-round theorem from [C06_catch_up 3]: honest nodes do not stop
    during a synchronous suffix with headroom (stopping = Panic / RBlocked / RInternal) *)
 Definition C06_no_stop (R : nat) : Prop :=
-  forall P pay, params_ok P -> env_ok P pay -> forall s, preach P s -> headroom P s (Z.of_nat R + 2) ->
-  forall r k, (1 <= r <= R)%nat -> honestb P k = true -> up (sync_rounds P pay r s) k.
+  forall P pay fetch, params_ok P -> env_ok P pay -> forall s, preach P s -> headroom P s (Z.of_nat R + 2) ->
+  forall r k, (1 <= r <= R)%nat -> honestb P k = true -> up (sync_rounds P pay fetch r s) k.
 
 (* (c) alignment *)
 Definition aligned (P : params) (s : gstate) (V : Z) : Prop :=
   forall k, honestb P k = true -> up s k /\ hview s k = V /\
     (r_phase (n_live (g_node s k)) = Prepare \/ r_phase (n_live (g_node s k)) = PTimeout).
 Definition C06_sync_rounds_align (R : nat) : Prop :=
-  forall P pay, params_ok P -> env_ok P pay -> forall s, preach P s -> headroom P s (Z.of_nat R + 2) ->
-  exists V, aligned P (sync_rounds P pay R s) V /\ forall k, honestb P k = true -> hview s k <= V.
+  forall P pay fetch, params_ok P -> env_ok P pay -> forall s, preach P s -> headroom P s (Z.of_nat R + 2) ->
+  fetch_ok_run P pay fetch s R ->
+  exists V, aligned P (sync_rounds P pay fetch R s) V /\ forall k, honestb P k = true -> hview s k <= V.
 
 (* (d) as first stated: REFUTED below for R = 4 (view 0 has no proposal) *)
 Definition C06_aligned_view_commits (R : nat) : Prop :=
-  forall P pay, params_ok P -> env_ok P pay -> forall s V, preach P s -> headroom P s (Z.of_nat R + 2) ->
+  forall P pay fetch, params_ok P -> env_ok P pay -> forall s V, preach P s -> headroom P s (Z.of_nat R + 2) ->
+  fetch_ok_run P pay fetch s R ->
   aligned P s V -> honestb P (cleader (pcfg P 0) V) = true ->
-  forall k, honestb P k = true -> height s k < height (sync_rounds P pay R s) k.
+  forall k, honestb P k = true -> height s k < height (sync_rounds P pay fetch R s) k.
 
 (* (d) corrected: the leader of the aligned view has been notified of a justification for it
    (it entered the view through start_new_view in this incarnation; a restarted leader does not
@@ -51,34 +53,103 @@ Definition leader_ready (P : params) (s : gstate) (V : Z) : Prop :=
   exists j mv, n_notify (g_node s (cleader (pcfg P 0) V)) = Some j /\
                justification_view (E := unit) true j = Ok mv /\ vnum mv = V.
 Definition C06_aligned_view_commits' (R : nat) : Prop :=
-  forall P pay, params_ok P -> env_ok P pay -> forall s V, preach P s -> headroom P s (Z.of_nat R + 2) ->
+  forall P pay fetch, params_ok P -> env_ok P pay -> forall s V, preach P s -> headroom P s (Z.of_nat R + 2) ->
+  fetch_ok_run P pay fetch s R ->
   aligned P s V -> honestb P (cleader (pcfg P 0) V) = true -> leader_ready P s V ->
-  forall k, honestb P k = true -> height s k < height (sync_rounds P pay R s) k.
+  forall k, honestb P k = true -> height s k < height (sync_rounds P pay fetch R s) k.
 
 (* (e) bounded progress with a silent adversary *)
 Definition byz_run (P : params) (V : Z) (nbyz : nat) : Prop :=
   exists i, (i <= nbyz)%nat /\ honestb P (cleader (pcfg P 0) (V + Z.of_nat i)) = true.
 Definition C06_progress_partial : Prop :=
-  forall P pay nbyz, params_ok P -> env_ok P pay -> forall s, preach P s ->
+  forall P pay fetch nbyz, params_ok P -> env_ok P pay -> forall s, preach P s ->
   headroom P s (2 * Z.of_nat nbyz + 8) ->
+  fetch_ok_run P pay fetch s (2 * nbyz + 6) ->
   (forall V, byz_run P V nbyz) ->
   forall k, honestb P k = true ->
-    height s k < height (sync_rounds P pay (2 * nbyz + 6) s) k.
+    height s k < height (sync_rounds P pay fetch (2 * nbyz + 6) s) k.
 
 (* the full statement: the adversary keeps injecting messages between the rounds *)
 Inductive byz_steps (P : params) : gstate -> gstate -> Prop :=
 | BSNil s : byz_steps P s s
 | BSCons s m s' : adv_ok P (g_soup s) m -> byz_steps P (add_msg s m) s' -> byz_steps P s s'.
-Inductive adv_suffix (P : params) (pay : Z -> Z) : nat -> gstate -> gstate -> Prop :=
-| ASNil s : adv_suffix P pay 0 s s
-| ASRound n s s1 s' : byz_steps P s s1 -> adv_suffix P pay n (sync_round P pay s1) s' ->
-                      adv_suffix P pay (S n) s s'.
+Inductive adv_suffix (P : params) (pay : Z -> Z) (fetch : gstate -> Z -> option cqc) :
+    nat -> gstate -> gstate -> Prop :=
+| ASNil s : adv_suffix P pay fetch 0 s s
+| ASRound n s s1 s' : byz_steps P s s1 -> adv_suffix P pay fetch n (sync_round P pay fetch s1) s' ->
+                      adv_suffix P pay fetch (S n) s s'.
 Definition C06_full : Prop :=
-  forall P pay nbyz, params_ok P -> env_ok P pay -> forall s, preach P s ->
+  forall P pay fetch nbyz, params_ok P -> env_ok P pay -> fetch_ok P fetch -> forall s, preach P s ->
   (forall V, byz_run P V nbyz) ->
-  exists R, forall s', adv_suffix P pay R s s' ->
+  exists R, forall s', adv_suffix P pay fetch R s s' ->
     (forall m, In m (g_soup s') -> msg_view (m_msg m) + 2 < U64) ->
     forall k, honestb P k = true -> height s k < height s' k.
+
+(* ================================================================== *)
+(* H-FETCH: the general assumption implies the one restricted to a run; a boolean test of
+   [fetch_ok_at], used to show the assumption satisfiable on concrete runs *)
+Lemma sync_point_reach P pay s : preach P s -> preach P (sync_point P pay s).
+Proof.
+  intros Hs. unfold sync_point.
+  assert (H0 : preach P (revive_all P s)).
+  { unfold revive_all. apply fold_reach; [intros; apply revive1_reach; assumption|exact Hs]. }
+  unfold propose_all. apply fold_reach; [intros; apply propose1_reach; assumption|].
+  unfold deliver_all. apply fold_reach; [|exact H0].
+  intros s1 i H1. unfold deliver_msg. apply fold_reach; [intros; apply deliver1_reach; assumption|exact H1].
+Qed.
+
+Lemma fetch_ok_run_of P pay fetch s R : preach P s -> fetch_ok P fetch -> fetch_ok_run P pay fetch s R.
+Proof. intros Hs H r _. apply H, sync_point_reach, sync_rounds_reach, Hs. Qed.
+
+Definition fetch_ok_atb (P : params) (fetch : gstate -> Z -> option cqc) (s : gstate) : bool :=
+  forallb (fun x => match fetch s (snd (fst x)) with
+                    | Some q => (hnum (cprop (qmsg q)) =? snd (fst x)) && (hpay (cprop (qmsg q)) =? snd x)
+                                && is_ok (cqc_verify (p_g P) (p_e P) (p_C P) q) && cqc_knownb P (g_soup s) q
+                    | None => false
+                    end) (g_qlog s).
+Lemma fetch_ok_atb_spec P fetch s : fetch_ok_atb P fetch s = true -> fetch_ok_at P fetch s.
+Proof.
+  intros H k n h _ Hin. unfold fetch_ok_atb in H. rewrite forallb_forall in H. specialize (H _ Hin).
+  cbn [fst snd] in H. destruct (fetch s n) as [q|]; [|discriminate]. exists q.
+  apply andb_true_iff in H. destruct H as [H H4]. apply andb_true_iff in H. destruct H as [H H3].
+  apply andb_true_iff in H. destruct H as [H1 H2]. apply Z.eqb_eq in H1, H2.
+  repeat split; auto.
+  destruct (cqc_verify (p_g P) (p_e P) (p_C P) q) as [[]| |]; [reflexivity|discriminate|discriminate].
+Qed.
+Definition fetch_ok_runb (P : params) (pay : Z -> Z) (fetch : gstate -> Z -> option cqc) (s : gstate) (R : nat) : bool :=
+  forallb (fun r => fetch_ok_atb P fetch (sync_point P pay (sync_rounds P pay fetch r s))) (seq 0 R).
+Lemma fetch_ok_runb_spec P pay fetch s R : fetch_ok_runb P pay fetch s R = true -> fetch_ok_run P pay fetch s R.
+Proof.
+  intros H r Hr. unfold fetch_ok_runb in H. rewrite forallb_forall in H.
+  apply fetch_ok_atb_spec, (H r), in_seq. lia.
+Qed.
+
+(* H-FETCH is satisfiable on the example runs with the oracle that scans the network and the
+   honest nodes' highest certificates: from the initial state, and after the adversarial prefix
+   of ProtocolLiveExample (where the block has to be fetched) *)
+Lemma ex_fetch_run : fetch_ok_run ex_P ex_pay (find_cert ex_P) (ginit ex_P) 6.
+Proof. apply fetch_ok_runb_spec. vm_compute. reflexivity. Qed.
+
+Lemma ex_fetch_recovery_obs1 :
+  option_map (fun s => fetch_ok_runb ex_P ex_pay (find_cert ex_P) s 4) (xrun ex_P (ginit ex_P) ex_ops_part) = Some true.
+Proof. vm_compute. reflexivity. Qed.
+
+Lemma xrun_some_reach2 {A B} P ops (f : gstate -> A) (g : gstate -> B) v w :
+  option_map f (xrun P (ginit P) ops) = Some v -> option_map g (xrun P (ginit P) ops) = Some w ->
+  exists s, preach P s /\ f s = v /\ g s = w.
+Proof.
+  destruct (xrun P (ginit P) ops) as [s|] eqn:E; cbn [option_map]; [|discriminate].
+  intros H1 H2. injection H1 as H1. injection H2 as H2. exists s. split; [|split; assumption].
+  eapply xrun_reach; [apply PReachInit|exact E].
+Qed.
+
+Lemma ex_fetch_recovery :
+  exists s, preach ex_P s /\ fetch_ok_run ex_P ex_pay (find_cert ex_P) s 4 /\
+            g_qlog (sync_rounds ex_P ex_pay (find_cert ex_P) 2 s) = [(1, 0, 42); (2, 0, 42); (3, 0, 42); (4, 0, 42)].
+Proof.
+  destruct (xrun_some_reach2 _ _ _ _ _ _ ex_fetch_recovery_obs1 ex_recovery_qlog) as (s & Hr & H1 & H2).
+  exists s. split; [exact Hr|]. split; [apply fetch_ok_runb_spec; exact H1|exact H2].
+Qed.
 
 (* ================================================================== *)
 (* the first statement of (d) is false: at the initial state of the six-validator committee
@@ -95,7 +166,7 @@ Proof. intros H. apply forallb_forall. exact H. Qed.
 
 Theorem aligned_view_commits_refuted : ~ C06_aligned_view_commits 4.
 Proof.
-  intros H. specialize (H ex_P6 ex_pay ex_P6_ok ex_env6_ok (ginit ex_P6) 0 (PReachInit ex_P6)).
+  intros H. specialize (H ex_P6 ex_pay (find_cert ex_P6) ex_P6_ok ex_env6_ok (ginit ex_P6) 0 (PReachInit ex_P6)).
   assert (Hhead : headroom ex_P6 (ginit ex_P6) (Z.of_nat 4 + 2)).
   { split.
     - intros k Hk. apply ex_P6_hon in Hk.
@@ -108,7 +179,9 @@ Proof.
   { intros k Hk. apply ex_P6_hon in Hk.
     repeat (destruct Hk as [<-|Hk]; [vm_compute; split; [reflexivity|split; [reflexivity|right; reflexivity]]|]).
     destruct Hk. }
-  specialize (H Hhead Hal eq_refl 1 eq_refl).
+  assert (Hf : fetch_ok_run ex_P6 ex_pay (find_cert ex_P6) (ginit ex_P6) 4)
+    by (apply fetch_ok_runb_spec; vm_compute; reflexivity).
+  specialize (H Hhead Hf Hal eq_refl 1 eq_refl).
   vm_compute in H. discriminate H.
 Qed.
 
@@ -119,8 +192,8 @@ Proof. intros H. apply hon_in_honest_keys in H. exact H. Qed.
 
 Lemma ex_catch_up_hyps :
   let s := ginit ex_P in
-  let s1 := sync_round ex_P ex_pay s in
-  let s2 := sync_round ex_P ex_pay s1 in
+  let s1 := sync_round ex_P ex_pay (find_cert ex_P) s in
+  let s2 := sync_round ex_P ex_pay (find_cert ex_P) s1 in
   (forall k, honestb ex_P k = true -> up s1 k /\ up s2 k) /\
   (forall k, honestb ex_P k = true -> dview s k + 4 < U64) /\
   (forall k, honestb ex_P k = true -> up s k).
@@ -133,7 +206,7 @@ Qed.
 (* honest nodes do not stop during a synchronous suffix with headroom; hence the exact form of (b) *)
 Theorem no_stop_holds : forall R, C06_no_stop R.
 Proof.
-  intros R P pay HP (_ & _ & Hf) s Hr (Hd & Hs) r k Hrr Hk.
+  intros R P pay fetch HP (_ & _ & Hf) s Hr (Hd & Hs) r k Hrr Hk.
   assert (Hdk : 0 <= dview s k).
   { destruct (preach_LI P s Hr k) as [(_ & _ & H0 & _) _]. exact H0. }
   pose proof (Hd k Hk) as Hdk2.
@@ -141,16 +214,16 @@ Proof.
     by (intros k' Hk'; specialize (Hd k' Hk'); lia).
   assert (H2 : forall m, In m (g_soup s) -> msg_view (m_msg m) <= U64 - Z.of_nat R - 2)
     by (intros m Hin; specialize (Hs m Hin); lia).
-  exact (no_stop_rounds P HP pay Hf R s _ _ Hr H1 H2 ltac:(lia) ltac:(lia) ltac:(lia) ltac:(lia) r Hrr k Hk).
+  exact (no_stop_rounds P HP pay fetch Hf R s _ _ Hr H1 H2 ltac:(lia) ltac:(lia) ltac:(lia) ltac:(lia) r Hrr k Hk).
 Qed.
 
 Theorem catch_up_holds : C06_catch_up 3.
 Proof.
-  intros P pay HP He s Hr Hh h k Hhh Hk Huph Hupk.
-  pose proof (no_stop_holds 3 P pay HP He s Hr Hh) as Hns.
+  intros P pay fetch HP He s Hr Hh h k Hhh Hk Huph Hupk.
+  pose proof (no_stop_holds 3 P pay fetch HP He s Hr Hh) as Hns.
   destruct He as (_ & _ & Hf). destruct Hh as (Hd & _).
-  change (sync_rounds P pay 3 s) with (sync_round P pay (sync_round P pay (sync_round P pay s))) in *.
-  apply (catch_up_three_rounds P HP pay s h k Hr); try assumption.
+  change (sync_rounds P pay fetch 3 s) with (sync_round P pay fetch (sync_round P pay fetch (sync_round P pay fetch s))) in *.
+  apply (catch_up_three_rounds P HP pay fetch s h k Hr); try assumption.
   - intros k' Hk'. split.
     + exact (Hns 1%nat k' ltac:(lia) Hk').
     + exact (Hns 2%nat k' ltac:(lia) Hk').
